@@ -171,7 +171,10 @@ func checkC19(c *CheckCtx) error {
 // reformattedStandalone: one standalone JSON file addressed through Configs that differ only in
 // their JSON formatting options. The file IS the formatted value (C19): the same document in another
 // format is a different file, so the second Config's call fails (or rewrites in update mode).
-func reformattedStandalone() []*Scenario {
+func reformattedStandalone() []*Scenario { return reformatted("sjson", "rf") }
+
+// reformatted: the same for any JSON entry point (MatchJSON: one slot of a multi-entry file)
+func reformatted(api, tag string) []*Scenario {
 	docs := []string{`{"b":{"y":[1,2,{"z":"w"}]},"a":{"x":1}}`, `{"list":[{"k":1},{"k":2}],"name":"n"}`}
 	fmts := map[string]*JSONCfg{
 		"k4":   {Width: 80, Indent: "    ", SortKeys: true},
@@ -194,7 +197,7 @@ func reformattedStandalone() []*Scenario {
 			for _, mode := range []string{"ci", "default", "update"} {
 				for _, rev := range []bool{false, true} {
 					n++
-					sc := &Scenario{ID: fmt.Sprintf("rf%d", n), Configs: stdConfigs(), Program: []string{"TestA"}}
+					sc := &Scenario{ID: fmt.Sprintf("%s%d", tag, n), Configs: stdConfigs(), Program: []string{"TestA"}}
 					sc.Configs[k] = &Cfg{Dir: sp("@/snaps"), JSON: fmts[k]}
 					first, second := "c", k
 					if rev {
@@ -202,13 +205,13 @@ func reformattedStandalone() []*Scenario {
 					}
 					val := strVal(doc)
 					mk := func(cfg string) []*Step {
-						return []*Step{{Op: "begin", Name: "TestA"}, {Op: "match", Name: "TestA", API: "sjson", Cfg: cfg, Val: val}, {Op: "end", Name: "TestA"}}
+						return []*Step{{Op: "begin", Name: "TestA"}, {Op: "match", Name: "TestA", API: api, Cfg: cfg, Val: val}, {Op: "end", Name: "TestA"}}
 					}
 					sc.Procs = append(sc.Procs, &Proc{Spec: procSpec("default"), Steps: mk(first)})
 					sc.Procs = append(sc.Procs, &Proc{Spec: procSpec(mode), Steps: mk(second)})
 					sc.Procs = append(sc.Procs, &Proc{Spec: procSpec("ci"), Steps: mk(second)})
 					sc.Procs = append(sc.Procs, &Proc{Spec: procSpec("ci"), Steps: mk(first)})
-					sc.Note = fmt.Sprintf("standalone JSON file written with %s, addressed with %s in mode %s", first, second, mode)
+					sc.Note = fmt.Sprintf("%s value written with %s, addressed with %s in mode %s", api, first, second, mode)
 					out = append(out, sc)
 				}
 			}
